@@ -372,12 +372,15 @@ PROPS["C14"] = {
     "claim": "For the project-code part of the code-page layer: identifier lookup and reverse lookup are mutually inverse "
              "for every i32 (Kani); every code page selects the encoding_rs table of the Windows code page its identifier "
              "names (MIR + SMT, symbolic discriminant; 28591 -> windows-1252 accepted); the US-ASCII codec obeys the "
-             "per-character and concatenation laws on six concrete string shapes (a table of runs decided by CBMC). That encoding_rs's tables "
-             "implement the Windows code pages, and the 1024-byte chunk loop around encoding_rs, are trusted / outside.",
+             "per-character and concatenation laws on six concrete string shapes (a table of runs decided by CBMC). The 1024-byte chunk "
+             "loop of CodePage::encode (MIR + SMT, the encoder an uninterpreted call bound only by its documented contract, <= 2 encoder "
+             "calls): each call gets exactly the unread input, exactly the bytes written are appended, '?' exactly after Unmappable, and "
+             "encode returns only when the whole string was consumed -- so the encoding of a string is the concatenation of its "
+             "characters' encodings whatever its length, given encoding_rs's contract. That encoding_rs's tables implement the Windows "
+             "code pages is trusted.",
     "note": "Trusted: encoding_rs's tables (per-character laws over 1.1M scalars x 26 pages are table lookups inside a "
             "dependency: one symbolic char through WINDOWS_1252 did not finish in 10 min), the reference table in "
-            "vlib/mir_engine.py, translator, z3/cvc5, Kani/CBMC. Outside: CodePage::encode's chunk loop, decoding laws of "
-            "the non-ASCII pages.",
+            "vlib/mir_engine.py, translator, z3/cvc5, Kani/CBMC. Outside: decoding laws of the non-ASCII pages, more than 2 (thorough: 3) encoder calls.",
     "kani": [
         H("proofs::c14::c14_id_inverse", timeout=300, symbolic="any i32 identifier; any of the 26 code pages", bounds="loop-free",
           functions=["codepage::CodePage::from_id", "codepage::CodePage::id"]),
